@@ -239,6 +239,10 @@ pub struct PathCheck {
     /// an Ins run (resp. Del run) that has a clip operation between two of its members
     pub ins_run_split_by_clip: bool,
     pub del_run_split_by_clip: bool,
+    /// an Ins run of length >= 2 located where y is exhausted before a non-empty y suffix clip
+    /// (the shape the split run takes once clip operations have been filtered out)
+    pub ins_run_at_clipped_yend: bool,
+    pub del_run_at_clipped_xend: bool,
 }
 
 /// Cursor walk over the operations.  `tolerate_zero_len_clips`: banded aligner emits `Yclip(0)`.
@@ -274,6 +278,8 @@ pub fn validate(
         has_clip: false,
         ins_run_split_by_clip: false,
         del_run_split_by_clip: false,
+        ins_run_at_clipped_yend: false,
+        del_run_at_clipped_xend: false,
     };
     for op in &al.operations {
         match *op {
@@ -357,6 +363,9 @@ pub fn validate(
                     if clip_since_last_aligned {
                         pc.ins_run_split_by_clip = true;
                     }
+                    if j == al.yend && al.yend < n {
+                        pc.ins_run_at_clipped_yend = true;
+                    }
                 } else {
                     score += (s.gap_open + s.gap_extend) as i64;
                 }
@@ -373,6 +382,9 @@ pub fn validate(
                     score += s.gap_extend as i64;
                     if clip_since_last_aligned {
                         pc.del_run_split_by_clip = true;
+                    }
+                    if i == al.xend && al.xend < m {
+                        pc.del_run_at_clipped_xend = true;
                     }
                 } else {
                     score += (s.gap_open + s.gap_extend) as i64;
